@@ -6,7 +6,7 @@ from fractions import Fraction
 
 import numpy as np
 
-from common import (COQ, REPO, ExprTr, Run, TranslateError, coq_eval_many, fhex, flist, get_function,
+from common import (COQ, REPO, STDLIB_AXIOMS_FLOATS, STDLIB_AXIOMS_REALS, ExprTr, Run, TranslateError, coq_eval_many, fhex, flist, get_function,
                     natlist, parse_evals, strip_doc, write_if_changed)
 
 PID = "C06"
@@ -309,12 +309,15 @@ def check_property_on_output(run, n, w, u0, out, where):
 def model_cases_src(cases):
     items = []
     for (n, w, s, u0) in cases:
-        items.append(f"(sysres2_with_sum FOps true {n}%nat {flist(w)} {fhex(s)} {fhex(SQRTEPS)} {fhex(u0)})")
+        # last entry of the encoding: 1 when every tooth compares >= +0 (premise of C06_binary64_never_selects_zero_weight)
+        items.append(f"(sysres2_with_sum FOps true {n}%nat {flist(w)} {fhex(s)} {fhex(SQRTEPS)} {fhex(u0)}, "
+                     f"forallb (fun p => PrimFloat.leb 0%float p) (cpositions FOps {fhex(u0)} {n}%nat))")
     body = ";\n  ".join(items)
     return f"""From Coq Require Import List PrimFloat.
 From Tempest Require Import Base.Ops Model.Resample.
 Import ListNotations.
-Definition enc (r : option (list nat)) : list nat := match r with Some l => 0 :: l | None => [1] end.
+Definition enc (rb : option (list nat) * bool) : list nat :=
+  (if snd rb then 1 else 0) :: match fst rb with Some l => 0 :: l | None => [1] end.
 Eval vm_compute in map enc [
   {body}
   ].
@@ -404,7 +407,10 @@ def correspond(run: Run, tier, rng):
         run.broken.append(("correspondence-parse", f"{len(model_out)} results for {len(cases)} cases"))
         return
     agree = 0
+    teeth_ok = 0
     for c, io, mo in zip(cases, impl_out, model_out):
+        teeth_ok += mo[0]
+        mo = mo[1:]
         m = mo[1:] if mo[0] == 0 else "IndexError"
         if m == io:
             agree += 1
@@ -413,6 +419,9 @@ def correspond(run: Run, tier, rng):
                          w=[x.hex() for x in c[1]], u0=c[3].hex(), impl=io, model=m)
     run.extra["bit_exact_cases"] = len(cases)
     run.extra["bit_exact_agree"] = agree
+    run.extra["teeth_nonnegative_premise_holds"] = f"{teeth_ok} of {len(cases)} executed cases"
+    if teeth_ok != len(cases):
+        run.notes.append("the premise 'every tooth compares >= +0' of C06_binary64_never_selects_zero_weight failed on an executed case")
 
 
 def unbiased_sweep(run: Run, tier, rng):
@@ -569,7 +578,7 @@ def main(tier, seed):
         run.obligation("translate:tools.systematic_resample+Resampler.run", True)
     except Exception as e:  # fail closed: anything the translator cannot digest
         run.obligation("translate:tools.systematic_resample+Resampler.run", False, str(e))
-    run.prove("Props/C06.v", link_rels=["Link/Resample.v"])
+    run.prove("Props/C06.v", link_rels=["Link/Resample.v"], allowed_axioms=STDLIB_AXIOMS_REALS | STDLIB_AXIOMS_FLOATS)
     try:
         correspond(run, tier, rng)
         unbiased_sweep(run, tier, rng)
